@@ -69,6 +69,8 @@ type cnCfg struct {
 	MaxPerEntity  int    `json:"max_per_entity"`
 	ExtraNodes    int    `json:"extra_nodes"` // entity 0 runs this many additional validator nodes
 	TiedStake     bool   `json:"tied_stake"`  // every validator entity starts with the same escrow
+	VRF           bool   `json:"vrf"`         // VRF beacon backend (the production one) instead of the insecure test backend
+	VRFThreshold  uint64 `json:"vrf_threshold"`
 }
 
 type cnValidator struct {
@@ -99,6 +101,7 @@ type cnNet struct {
 	names      map[string]string                         // address / key -> short name
 	pendingRot map[*cnTxSpec]map[string]signature.Signer // key rotations proposed by not yet executed registrations
 	rhPrev     map[string]hash.Hash                      // runtime -> encoded hash of its latest block (for commitments)
+	vrfAlpha   []byte                                    // VRF backend: the alpha proofs are currently collected for
 }
 
 func q(n uint64) quantity.Quantity { return *quantity.NewFromUint64(n) }
@@ -117,6 +120,17 @@ type detFactory struct {
 
 func (f detFactory) Generate(role signature.SignerRole, _ io.Reader) (signature.Signer, error) {
 	return f.SignerFactory.Generate(role, detRand{f.rng})
+}
+
+func beaconParams(cfg cnCfg) beacon.ConsensusParameters {
+	if cfg.VRF {
+		return beacon.ConsensusParameters{
+			Backend: beacon.BackendVRF,
+			VRFParameters: &beacon.VRFParameters{AlphaHighQualityThreshold: cfg.VRFThreshold, Interval: cfg.EpochInterval, ProofSubmissionDelay: 1,
+				GasCosts: transaction.Costs{beacon.GasOpVRFProve: 10}},
+		}
+	}
+	return beacon.ConsensusParameters{Backend: beacon.BackendInsecure, InsecureParameters: &beacon.InsecureParameters{Interval: cfg.EpochInterval}}
 }
 
 func newNet(cfg cnCfg, scratch string) (*cnNet, error) {
@@ -269,12 +283,7 @@ func (n *cnNet) buildGenesis() error {
 		Height:  1,
 		ChainID: cfg.ChainID,
 		Time:    genesisTime,
-		Beacon: beacon.Genesis{
-			Parameters: beacon.ConsensusParameters{
-				Backend:            beacon.BackendInsecure,
-				InsecureParameters: &beacon.InsecureParameters{Interval: cfg.EpochInterval},
-			},
-		},
+		Beacon:  beacon.Genesis{Parameters: beaconParams(cfg)},
 		Registry: registry.Genesis{
 			Parameters: registry.ConsensusParameters{
 				DebugAllowUnroutableAddresses: true,
